@@ -310,7 +310,8 @@ pub fn c19(cfg: &Cfg, rep: &mut Report) {
     // real threads
     let runs = cfg.get_usize("threaded", if cfg.thorough { 400 } else { 60 });
     for i in 0..runs {
-        if rep.too_many() {
+        // one stalled producer per shard is witness enough (each costs 20 s of waiting)
+        if rep.too_many() || rep.violations.iter().any(|v| v.signature == "stream-threaded-producer-stalled") {
             break;
         }
         c19_threaded(cfg, rep, cfg.case_seed(500_000 + i));
@@ -413,7 +414,7 @@ pub fn c19_threaded(_cfg: &Cfg, rep: &mut Report, case_seed: u64) {
     let nops = rng.range(5, 60);
     let program = producer_program(&mut rng, nvars, nops);
     // the channels handed in may be bounded: a full channel must stall the producer, never drop a node
-    let cap1 = *rng.pick(&[None, None, Some(1usize), Some(2), Some(3), Some(8)]);
+    let cap1 = *rng.pick(&[None, None, Some(0usize), Some(1), Some(2), Some(3), Some(8)]);
     let (s1, r1) = match cap1 {
         None => crossbeam_channel::unbounded::<BddNode>(),
         Some(c) => crossbeam_channel::bounded::<BddNode>(c),
@@ -427,6 +428,8 @@ pub fn c19_threaded(_cfg: &Cfg, rep: &mut Report, case_seed: u64) {
     let done = std::sync::Arc::new(std::sync::atomic::AtomicBool::new(false));
 
     let prog2 = program.clone();
+    let progress = std::sync::Arc::new(std::sync::atomic::AtomicUsize::new(0));
+    let progress2 = progress.clone();
     let producer = std::thread::spawn(move || {
         guarded(SMALL_BUDGET, || {
             let mut store = Store::new(nvars);
@@ -435,6 +438,7 @@ pub fn c19_threaded(_cfg: &Cfg, rep: &mut Report, case_seed: u64) {
             let mut y = Rng::new(seed_a);
             for spec in &prog2 {
                 let op = spec_to_op(spec, store.issued.len());
+                progress2.fetch_add(1, std::sync::atomic::Ordering::SeqCst);
                 if let Err(e) = store.apply(&op) {
                     error = Some(e);
                     break;
@@ -452,30 +456,60 @@ pub fn c19_threaded(_cfg: &Cfg, rep: &mut Report, case_seed: u64) {
             guarded(SMALL_BUDGET, || {
                 let mut log: Log = Vec::new();
                 let mut r = Rng::new(seed);
+                let mut polls = 0u64;
                 loop {
                     let finished = done.load(std::sync::atomic::Ordering::SeqCst);
                     let len = bdd.nodes.len();
                     let kind = *r.pick(&HKINDS);
                     let h = choose_h(kind, len, r.below(1000));
                     let found = bdd.recv(Term(h));
-                    log.push((h, found, len, bdd.nodes.clone()));
-                    if finished && log.len() > 3 {
+                    polls += 1;
+                    if log.len() < 20_000 {
+                        log.push((h, found, len, bdd.nodes.clone()));
+                    }
+                    if finished && polls > 3 {
                         break;
                     }
                     if r.chance(1, 2) {
                         std::thread::yield_now();
-                    }
-                    if log.len() > 20_000 {
-                        break;
                     }
                 }
                 (log, bdd)
             })
         })
     };
-    let relay_t = poller(Bdd::with_sender_receiver(s2, r1), seed_b, done.clone());
     let done_last = std::sync::Arc::new(std::sync::atomic::AtomicBool::new(false));
+    let relay_t = poller(Bdd::with_sender_receiver(s2, r1), seed_b, done.clone());
     let last_t = poller(Bdd::with_receiver(r2), seed_b ^ 0x55, done_last.clone());
+    // bounded progress: the producer reports every operation it starts. It is stalled if it is not done,
+    // has not started a new operation for 20 s (generous: one operation takes microseconds) although the
+    // relay polls continuously. Only a receiver side that never takes anything from the channel does that.
+    let mut stalled = false;
+    let mut last_progress = (progress.load(std::sync::atomic::Ordering::SeqCst), std::time::Instant::now());
+    while !producer.is_finished() {
+        let p = progress.load(std::sync::atomic::Ordering::SeqCst);
+        if p != last_progress.0 {
+            last_progress = (p, std::time::Instant::now());
+        } else if last_progress.1.elapsed() > std::time::Duration::from_secs(20) {
+            stalled = true;
+            break;
+        }
+        std::thread::sleep(std::time::Duration::from_micros(200));
+    }
+    if stalled {
+        done.store(true, std::sync::atomic::Ordering::SeqCst);
+        done_last.store(true, std::sync::atomic::Ordering::SeqCst);
+        // joining the pollers drops their stores and with them the receivers, which releases the producer
+        let _ = relay_t.join();
+        let _ = last_t.join();
+        let _ = producer.join();
+        rep.violation(
+            "stream-threaded-producer-stalled",
+            format!("the producer made no progress for 20 s at operation {} while the relay kept polling (channel capacity {:?})", last_progress.0, cap1),
+            replay,
+        );
+        return;
+    }
     let prod = producer.join();
     done.store(true, std::sync::atomic::Ordering::SeqCst);
     let relay = relay_t.join();
